@@ -65,6 +65,52 @@ def defs_of(f: Func, name: str, *, scope: ast.AST | None = None) -> list[Def]:
     return out
 
 
+def _def_node_ids(g, d: "Def") -> list[int]:
+    if d.kind == "param":
+        return [g.entry]
+    st = d.stmt
+    if st is None:
+        return []
+    if d.kind == "walrus":
+        return g.node_containing(st)
+    if d.kind in ("comp", "except"):
+        return []
+    return g.ids_of(st) or g.node_containing(st)
+
+
+def reaching_defs(f: Func, name: str, use: ast.AST) -> list[Def]:
+    """Definitions of `name` that reach the CFG node evaluating `use` (flow-sensitive; plain
+    assignments, loop/with targets and walrus kill earlier definitions, augmented assignments do not).
+    Falls back to all definitions when the use cannot be located."""
+    ds = defs_of(f, name)
+    g = f.cfg
+    unodes = g.node_containing(use) if not isinstance(use, ast.stmt) else (g.ids_of(use) or g.node_containing(use))
+    if not unodes:
+        return ds
+    located = [(d, _def_node_ids(g, d)) for d in ds]
+    kill: set[int] = set()
+    for d, ids in located:
+        if d.kind in ("assign", "for", "with", "walrus", "param") and d.index is None or d.kind in ("for", "with"):
+            kill.update(ids)
+    out = []
+    for d, ids in located:
+        if not ids:  # comprehension / handler variables: scoped, keep
+            out.append(d)
+            continue
+        reach = False
+        for di in ids:
+            for u in unodes:
+                if di == u and d.kind != "param":
+                    # the definition and the use are the same statement: reaches only around a loop
+                    if g.path(di, [u], avoid=kill - {di}) is not None:
+                        reach = True
+                elif g.path(di, [u], avoid=kill - {di, u}, kinds=frozenset({"n", "t", "f", "exc", "cexc"})) is not None:
+                    reach = True
+        if reach:
+            out.append(d)
+    return out
+
+
 def origins(f: Func, expr: ast.AST, depth: int = 5, _seen=None) -> list[ast.AST]:
     """Expressions `expr` may denote: local names are replaced by their plain
     assignments (all of them, flow-insensitively); parameters, loop variables and
@@ -131,12 +177,12 @@ def _is_quoter(prog: Program, f: Func, call: ast.Call) -> bool:
     return False
 
 
-def fragments(prog: Program, f: Func, expr: ast.AST, depth: int = 14, _seen: frozenset = frozenset()) -> list[Frag]:
+def fragments(prog: Program, f: Func, expr: ast.AST, depth: int = 14, _seen: frozenset = frozenset(), at: ast.AST | None = None) -> list[Frag]:
     """Split the expression that builds a command (string or list of words) into
     constant / quoted / numeric / dynamic fragments."""
     if depth <= 0:
         return [Frag("dyn", expr, unparse(expr))]
-    rec = lambda e, seen=_seen: fragments(prog, f, e, depth - 1, seen)  # noqa: E731
+    rec = lambda e, seen=_seen: fragments(prog, f, e, depth - 1, seen, at)  # noqa: E731
     if isinstance(expr, ast.Await):
         return rec(expr.value)
     if isinstance(expr, ast.Constant):
@@ -211,14 +257,15 @@ def fragments(prog: Program, f: Func, expr: ast.AST, depth: int = 14, _seen: fro
     if isinstance(expr, ast.Name):
         if expr.id in _seen:
             return []
-        ds = defs_of(f, expr.id)
+        use = at if at is not None else expr
+        ds = reaching_defs(f, expr.id, use) if getattr(use, "_parent", None) is not None else defs_of(f, expr.id)
         if not ds:
             return [Frag("dyn", expr, expr.id)]
         out = []
         seen = _seen | {expr.id}
         for d in ds:
             if d.kind in ("assign", "walrus", "aug") and d.index is None:
-                out.extend(fragments(prog, f, d.value, depth - 1, seen))
+                out.extend(fragments(prog, f, d.value, depth - 1, seen if d.kind != "aug" else _seen | {expr.id}, d.stmt if d.kind != "walrus" else d.value))
             else:
                 out.append(Frag("dyn", expr, expr.id, via=[d.kind]))
         # list accumulation: name.append(x) / name.extend(xs) / name.insert(i, x)
